@@ -743,6 +743,20 @@ def wellformed(rng, name, zero_ns=False, extra_feat=None):
         hs = main.service("Hostless")
         hs.rpc("Peek", "." + api.info["pkg"] + ".Aux", "." + api.info["pkg"] + ".Aux")
         api.tags.add("service-without-default-host")
+    # a file whose ONLY use of another target file is as the value type of map fields (message and enum values): that file's module
+    # is needed by the emitted class bodies all the same
+    pkg_ = api.info["pkg"]
+    ffar = File(pkg_.replace(".", "/") + "/far_label.proto", pkg_, deps=list(STD_DEPS))
+    ffar.message("FarLabel").field("text", "string")
+    ffar.enum("FarKind", "FAR_KIND_UNSPECIFIED", "NEAR", "FAR")
+    api.add(ffar)
+    fhold = File(pkg_.replace(".", "/") + "/map_holder.proto", pkg_, deps=list(STD_DEPS) + [ffar.pb.name])
+    mh = fhold.message("MapHolder")
+    mh.map("far_labels", "string", f".{pkg_}.FarLabel")
+    mh.map("far_kinds", "int32", f"enum:.{pkg_}.FarKind")
+    mh.field("note", "string")
+    api.add(fhold)
+    api.tags.add("map-value-type-is-the-only-use-of-another-file")
     return api
 
 
@@ -1969,7 +1983,8 @@ def retry_api(rng, name, subpkg=False):
     return api
 
 
-C12_POSITIONS = ["field", "flat", "flat_dotted", "path", "path_dotted", "path_dotted_parent", "body", "body_plain_uri", "query", "query_required", "routing", "routing_nested", "rpc", "file"]
+C12_POSITIONS = ["field", "flat", "flat_dotted", "path", "path_dotted", "path_dotted_parent", "body", "body_plain_uri", "query", "query_required", "routing", "routing_nested", "rpc", "file",
+                 "path_additional", "body_additional"]
 
 
 def reserved_api(name, words, position):
@@ -2019,7 +2034,7 @@ def reserved_api(name, words, position):
         inner.field("other", "string", number=1)
         q = f.message(f"Req{i}")
         q.field("anchor", "string", number=1)
-        if position in ("body", "body_plain_uri", "path_dotted_parent"):
+        if position in ("body", "body_plain_uri", "path_dotted_parent", "body_additional"):
             q.field(w, P + f".Inner{i}", number=7)
         elif position == "query_required":
             q.field(w, "string", number=7, required=True)
@@ -2046,6 +2061,12 @@ def reserved_api(name, words, position):
         elif position == "body_plain_uri":
             # the Create-at-top-level shape: a URI without any path variable, body = the reserved-word field
             kw = dict(http={"post": f"/v1/plain/b{i}"}, body=w)
+        elif position == "path_additional":
+            # the reserved word is a path variable of an ADDITIONAL binding only (the request selects that binding)
+            kw = dict(http={"get": f"/v1/{{anchor=anchors/*}}/pa{i}"}, extra=[({"get": f"/v1/{{{w}=things/*}}/pa{i}"}, None)])
+        elif position == "body_additional":
+            # ... or the body of an additional binding
+            kw = dict(http={"post": f"/v1/{{anchor=anchors/*}}:ba{i}"}, body="*", extra=[({"post": f"/v1/{{extra=extras/*}}:ba{i}"}, w)])
         elif position == "query":
             kw = dict(http={"get": f"/v1/{{anchor=anchors/*}}:q{i}"})
         elif position == "query_required":
@@ -2937,6 +2958,11 @@ def sample_api(rng, name, transport="grpc"):
         if rng.random() < 0.4:
             q.field("pick_num", "int32", oneof="choice")
             q.field("pick_hue", color, oneof="choice")
+        # google.api.field_behavior is a list: REQUIRED next to another behaviour, in either order, is REQUIRED all the same
+        from google.api import field_behavior_pb2 as fb_
+        q.field("req_pinned", "string", behaviors=[fb_.REQUIRED, fb_.IMMUTABLE])
+        q.field("req_seed", "int32", behaviors=[fb_.INPUT_ONLY, fb_.REQUIRED])
+        tags.add("sample-required-with-second-behaviour")
         q.field("note", "string")
         q.field("detail", P + ".Spec")
         o = f.message(f"Do{i}Response")
